@@ -1,13 +1,60 @@
 (** Property C03 — accepted templates compile; type errors surface at Go compile time.
-    OBLIGATIONS: C03_nonvacuous *)
-From GV Require Import Compiler.Compile.
+    Whether the generated file type-checks is a statement about the Go type checker and is decided by running it
+    (go vet / go build on every generated file and on every ill-typed substitution) in the C03 check.  What is
+    proved here are the parts of "no unused or duplicate imports, variables" that are the compiler's own doing:
+    temporaries are never reused inside a template, the import list has no duplicates and does not repeat goht's
+    own imports, and a fragment in a string position is the argument of goht.EscapeString / CaptureErrors, whose
+    parameter types make a wrongly typed fragment a compile error.
+    OBLIGATIONS: C03_itoa_injective C03_temporaries_not_reused C03_counter_monotone C03_imports_no_duplicates
+                 C03_string_position_is_typed C03_nonvacuous *)
+From GV Require Import Compiler.Compile Proofs.EmitProofs Proofs.EmitInv Proofs.VarProofs Proofs.PassThroughProofs Proofs.DynamicProofs.
+Open Scope N_scope.
 
-(** the string position of `= expr` is the argument of goht.EscapeString (type string) *)
+Theorem C03_itoa_injective : forall n m, itoa n = itoa m -> n = m.
+Proof. exact itoa_inj. Qed.
+Print Assumptions C03_itoa_injective.
+
+(** [goht_ok False n]: the tree [n] holds no template declaration (it is a piece of a template body) *)
+Theorem C03_temporaries_not_reused : forall sm n next nc st1,
+  goht_ok False n -> w_err (fst st1) = None ->
+  let st3 := fst (emit_node sm n next nc (after_var st1)) in
+  w_err (fst st3) = None -> var_name_of st3 <> var_name_of st1.
+Proof. exact name_not_reused. Qed.
+Print Assumptions C03_temporaries_not_reused.
+
+Theorem C03_counter_monotone : forall n0 sm n next nc st,
+  goht_ok False n -> (n0 <= w_num (fst st))%nat -> (n0 <= w_num (fst (fst (emit_node sm n next nc st))))%nat.
+Proof. exact counter_monotone. Qed.
+Print Assumptions C03_counter_monotone.
+
+Theorem C03_imports_no_duplicates : forall user t, imports_wf user -> imports_wf (add_import user t).
+Proof. exact add_import_wf. Qed.
+Print Assumptions C03_imports_no_duplicates.
+
+(** the string position: the fragment is the argument of goht.EscapeString (func(string) string) or, unescaped,
+    of goht.CaptureErrors (func(string) (string, error)); nothing converts it *)
+Theorem C03_string_position_is_typed : forall sm t st, quiet st ->
+  let v := lit "__var" ++ itoa (N.of_nat (S (w_num (fst st)))) in
+  let ind := tabs (wl_indent (snd st)) in
+  txt (emit_dynamic sm t st) =
+    (txt st ++ ind ++ lit "var " ++ v ++ lit " string" ++ [10] ++ ind ++ lit "if " ++ v ++ lit ", __err = ") ++
+    lit "goht.CaptureErrors(" ++
+      (if wl_unesc (snd st) then formatted_code t else lit "goht.EscapeString(" ++ formatted_code t ++ lit ")") ++
+      lit "); __err != nil { return }" ++ [10] ++
+    ind ++ write_string_open ++ v ++ lit "); __err != nil { return }" ++ [10].
+Proof.
+  intros sm t st Q. cbv zeta. rewrite (dynamic_text_code sm t st Q).
+  change (lit ", __err = goht.CaptureErrors(") with (lit ", __err = " ++ lit "goht.CaptureErrors(").
+  rewrite <- !app_assoc. reflexivity.
+Qed.
+Print Assumptions C03_string_position_is_typed.
+
 Example C03_nonvacuous :
   let src := lit "@goht P(s string) {" ++ [10; 9] ++ lit "= s" ++ [10; 9] ++ lit "%p{a ? #{c}}" ++ [10] ++ lit "}" ++ [10] in
   match cli_generate src with
   | Some out => contains (lit "goht.CaptureErrors(goht.EscapeString(s))") out && contains (lit "if c {") out
   | None => false
-  end = true.
-Proof. vm_compute. reflexivity. Qed.
+  end = true
+  /\ goht_ok False (Node (KScript tok_root) []) /\ itoa 120 = lit "120".
+Proof. split; [vm_compute; reflexivity|]. split; [cbn; auto|reflexivity]. Qed.
 Print Assumptions C03_nonvacuous.
